@@ -26,8 +26,8 @@ pub enum Impostor {
     PskOther,
     /// a transcript computed by the reference model from public values and an ephemeral key only:
     /// `term` is what stands in for DH(skS, pkR) (see `hpke_ref::forged_auth_setup_s`), `expect`
-    /// selects the sender key the receiver expects: 0 the honest pkS, k>0 the k-th small-order
-    /// X25519 encoding (NIST suites: the recipient's own public key)
+    /// selects the sender key the receiver expects: 0 the honest pkS, k in 1..=14 the k-th small-order
+    /// X25519 encoding, otherwise (and for k>0 on NIST suites) the recipient's own public key
     Forged { term: u8, expect: u8 },
 }
 
@@ -159,13 +159,13 @@ fn forged(case: &Case, sess: &Session, keys: &gen::Keys, term: u8, expect: u8, o
     let small = crate::corpus::small_order_14().unwrap_or_default();
     let expect_pk: Vec<u8> = if expect == 0 {
         keys.pk_s.clone()
-    } else if suite_.kem == KemId::X25519 && !small.is_empty() {
+    } else if suite_.kem == KemId::X25519 && !small.is_empty() && expect <= 14 {
         small[(expect as usize - 1) % small.len()].to_vec()
     } else {
         keys.pk_r.clone()
     };
     obs.label(format!("forged-term:{}", term % 5));
-    obs.label(if expect == 0 { "forged-expect:honest-pkS" } else if suite_.kem == KemId::X25519 { "forged-expect:small-order" } else { "forged-expect:own-pkR" });
+    obs.label(if expect == 0 { "forged-expect:honest-pkS" } else if suite_.kem == KemId::X25519 && expect <= 14 { "forged-expect:small-order" } else { "forged-expect:own-pkR" });
     obs.nontrivial = true;
     let (sk_e, _) = r::derive_key_pair(suite_.kem, &case.ikm_i);
     let mut si = sess.sender_in(keys, &[]);
@@ -213,7 +213,7 @@ impl Property for P {
         "C08"
     }
     fn rule(&self) -> String {
-        "Generated: sessions over 4 KEMs x any KDF/AEAD in {Auth, AuthPsk} (identity impostors) and {Psk, AuthPsk} (PSK possession) with impostor kinds: a different key pair; public half only (OpModeS::Auth((skI, pkS)), a real call since the API takes the pair unchecked); sender in the non-authenticated sibling mode; psk differing in one bit / in length / entirely, same psk_id; forged transcripts computed by the reference model from public values and an ephemeral key only (identity DH term omitted / Ndh zero bytes / omitted together with pkS in kem_context / DH(skE, pkS) / the ephemeral DH repeated) against a receiver expecting the honest pkS, each of the 14 small-order X25519 encodings, or (NIST) its own public key. \
+        "Generated: sessions over 4 KEMs x any KDF/AEAD in {Auth, AuthPsk} (identity impostors) and {Psk, AuthPsk} (PSK possession) with impostor kinds: a different key pair; public half only (OpModeS::Auth((skI, pkS)), a real call since the API takes the pair unchecked); sender in the non-authenticated sibling mode; psk differing in one bit / in length / entirely, same psk_id; forged transcripts computed by the reference model from public values and an ephemeral key only (identity DH term omitted / Ndh zero bytes / omitted together with pkS in kem_context / DH(skE, pkS) / the ephemeral DH repeated) against a receiver expecting the honest pkS, each of the 14 small-order X25519 encodings, or its own public key (pkS == pkR). \
          Swept: 4 KEMs x applicable modes x 6 impostor kinds; 5 forged-term kinds x expected keys x {Auth, AuthPsk} x 4 KEMs x {sealing, export-only}; every PSK length 1..=1200 (every 7th up to 2100, ten lengths just above 4 KiB..128 KiB) with the impostor's PSK differing in its last bit / one byte shorter / one byte longer. A third of the generated PSK impostors use a 301..=2100-byte PSK with the difference at its end. \
          Oracle: positive control (honest sender accepted, exports equal); for the impostor the receiver opens none of 3 ciphertexts and all 3 exports differ (or a setup fails). \
          Non-trivial: the public-half-only impostor, one-bit PSK differences and forged transcripts."
@@ -230,7 +230,7 @@ impl Property for P {
             3 => any::<u16>().prop_map(Impostor::PskBit),
             1 => any::<bool>().prop_map(Impostor::PskLength),
             1 => Just(Impostor::PskOther),
-            3 => (0u8..5, prop_oneof![2 => Just(0u8), 3 => 1u8..=14]).prop_map(|(term, expect)| Impostor::Forged { term, expect }),
+            3 => (0u8..5, prop_oneof![2 => Just(0u8), 3 => 1u8..=15]).prop_map(|(term, expect)| Impostor::Forged { term, expect }),
         ];
         (gen::session_any(), gen::ikm(), kind, any::<bool>(), any::<u16>())
             .prop_map(|(mut sess, ikm_i, mut kind, both, long)| {
@@ -290,7 +290,7 @@ impl Property for P {
                 let s = Suite { kem, kdf, aead };
                 for mode in [2u8, 3] {
                     for term in 0..5u8 {
-                        let expects: Vec<u8> = if kem == KemId::X25519 { (0..=14).collect() } else { vec![0, 1] };
+                        let expects: Vec<u8> = if kem == KemId::X25519 { (0..=15).collect() } else { vec![0, 1] };
                         for expect in expects {
                             forged.push(Case { sess: gen::cell_session(s, mode, 8), ikm_i: Bytes(gen::fill(kem.nsk(), 5, 89)), kind: Impostor::Forged { term, expect } });
                         }
